@@ -26,7 +26,7 @@ REACH = [("yamlpath/processor.py", "_get_nodes_by_path_segment,_get_nodes_by_key
          ("yamlpath/common/keywordsearches.py", "search_matches,has_child,max,min,parent,distinct,unique,name", "KeywordSearches"),
          ("yamlpath/common/searches.py", "search_matches", "Searches.search_matches")]
 SIZES = {"quick": 600000, "thorough": 6000000}
-REQUIRED_COUNTERS = ["docs_with_python_literal_lookalikes", "returned", "yamlpath_error", "deep_sequence_docs", "optional_mode_queries", "docs_with_odd_keys", "docs_tagged_through_the_library"]
+REQUIRED_COUNTERS = ["queries_with_forced_separator", "docs_with_python_literal_lookalikes", "returned", "yamlpath_error", "deep_sequence_docs", "optional_mode_queries", "docs_with_odd_keys", "docs_tagged_through_the_library"]
 
 BAD_REGEX = ["(", "[", "*a", "a{2", "(?P<x", "+"]
 ODD_KEY_DOCS = ["{'': 1, a: {'': {b: 2}}}", "!!set {'', a}", "{s: !!set {'', ' '}, t: 1}", "[{'': 1}, {'': 2}]", "{h: {'': {k: 1}, x: {k: 2}}}",
@@ -37,6 +37,10 @@ ODD_KEY_DOCS = ["{'': 1, a: {'': {b: 2}}}", "!!set {'', a}", "{s: !!set {'', ' '
 LITERAL_DOCS = ["{a: [3j, 5, x, 1.5], b: 2J, c: 15e3j, d: 7}", "[{v: 3j, w: 1}, {v: 1, w: 2j}, {v: x}]", "{k: [b'ab', 1, 2], m: ..., s: '{1, 2}', t: '(1, 2)'}",
                 "[1j, 2, 3]", "{a: 0b11, b: 0o17, c: 1e400, d: -1e400, e: 1_000_000, f: [0b1, 2]}", "{l: [None, True, 1], n: None, t: True}",
                 "{a: [.nan, 1, .inf], b: -.inf, c: .NaN}"]
+# keys holding the OTHER notation's separator, queried with the separator forced through pathsep=
+SEP_KEY_CASES = [("{'a/b': {c: 1, 'c/d': 2}, a: {b: {c: 3}}, 'x.y': {z: 4, 'z.w': 5}, x: {y: {z: 6}}}",
+                  ["a/b.c", "a/b.c/d", "a/b/c.d", "/x.y/z", "/x.y/z.w", "/x/y.z", "a/b", "/x.y", "a.b/c", "x.y/z", "*.c/d", "/*/z.w", "**.c/d", "a/b[.=1]", "/x.y[.>3]"]),
+                 ("[{'k/1': [1, 2]}, {'k.2': {'m/n': x}}]", ["[0].k/1[1]", "/[1]/k.2/m/n", "[1].k\\.2.m/n", "/[0]/k\\/1/[0]", "*.k/1", "/*/k.2"])]
 SEEDS = [
     ("[a]", "[-2]"), ("[a]", "/-2"), ("[a, b]", "[1:9]"), ("{a: [x]}", "a[0:0]"),
     ("[{a: 1}, null]", "[.=x]"), ("[a, {b: 1}]", "[unique()]"), ("[a, b]", "[.=~/(/]"),
@@ -77,6 +81,10 @@ def evaluate(ctx, doc_text, data, path_text):
     ops = ("get", "exists")
     if len(doc_text) < 400 and (ctx.evaluations % 5 == 0):
         ops = ("get", "exists", "optional")        # the optional-match form of the query, on a scratch copy (it may create nodes)
+    if ctx.evaluations % 7 == 0:
+        # the query handed over as a YAMLPath OBJECT together with the documented pathsep= argument (either separator,
+        # whichever notation the text was written in)
+        ops = ops + ("forced-dot", "forced-slash")
     for op in ops:
         ctx.evaluated()
         try:
@@ -85,6 +93,12 @@ def evaluate(ctx, doc_text, data, path_text):
                 import copy
                 ctx.count("optional_mode_queries")
                 for _ in Processor(LOG, copy.deepcopy(data)).get_nodes(path_text, mustexist=False, default_value="v"):
+                    pass
+            elif op.startswith("forced"):
+                from yamlpath.enums import PathSeparators
+                ctx.count("queries_with_forced_separator")
+                for _ in p.get_nodes(YAMLPath(path_text), mustexist=True,
+                                     pathsep=PathSeparators.DOT if op == "forced-dot" else PathSeparators.FSLASH):
                     pass
             elif op == "get":
                 n = 0
@@ -167,6 +181,12 @@ def run_shard(ctx):
             ctx.counters["deep_sequence_docs"] = ctx.counters.get("deep_sequence_docs", 0) + 1
             for p in ["**", "/**", "**[.=1]", "**[0]"]:
                 evaluate(ctx, "[x%d 1 ]x%d" % (depth, depth), data, p)
+    if ctx.shard == 1 % ctx.nshards:
+        for d, paths in SEP_KEY_CASES:
+            data = yp.load(d)
+            for ptxt in paths:
+                ctx.evaluations -= ctx.evaluations % 7        # (these are always also asked with a forced separator)
+                evaluate(ctx, d, data, ptxt)
     done = 0
     while done < total:
         x = rng.random()
